@@ -57,6 +57,8 @@ def mc_run(chk, family, constants, invariants=ENGINE_INVS, properties=ENGINE_PRO
     """Exhaustive TLC run; a counterexample is a violation of the property on the design.
     hist_limit > 0: the same run also prints one observable history per distinct quiescent end state; the
     scenarios built from them are returned as second element."""
+    constants = dict(constants)
+    constants.setdefault("MaxX", 0)
     wd = tlc.workdir("mc")
     try:
         fam = os.path.join(wd, "family.json")
@@ -117,7 +119,7 @@ def mc_run(chk, family, constants, invariants=ENGINE_INVS, properties=ENGINE_PRO
 
 
 def hist_to_scenario(member, hist, ni=1):
-    """Environment choices of one specification behaviour -> an executable scenario."""
+    """Environment choices of one specification behaviour -> an executable scenario (instances are slots h["i"])."""
     steps = []
     occ = {}
     cur_occ = {}
@@ -125,28 +127,31 @@ def hist_to_scenario(member, hist, ni=1):
     opt = None
     for h in hist:
         e = h["e"]
+        i = h.get("i", 1)
         if e == "new":
             opt = h["opt"]
-            steps.append({"op": "new", "i": 1, "cls": 1, "opt": h["opt"], "stored": h["stored"],
+            steps.append({"op": "new", "i": i, "cls": 1, "opt": h["opt"], "stored": h["stored"],
                           "provs": list(member["provs"]), "gv": h["gv"]})
         elif e == "call":
-            steps.append({"op": "call", "i": 1, "api": "send", "ev": h["ev"], "gv": h["gv"]})
+            steps.append({"op": "call", "i": i, "api": "send", "ev": h["ev"], "gv": h["gv"]})
         elif e == "activate":
-            steps.append({"op": "call", "i": 1, "api": "activate", "gv": h["gv"]})
+            steps.append({"op": "call", "i": i, "api": "activate", "gv": h["gv"]})
         elif e == "restart":
-            steps.append({"op": "new", "i": 1, "cls": 1, "opt": h["opt"], "stored": "", "reuse_model": True,
+            steps.append({"op": "new", "i": i, "cls": 1, "opt": h["opt"], "stored": "", "reuse_model": True,
                           "provs": list(member["provs"]), "gv": h["gv"]})
         elif e in ("write_setter", "write_model"):
-            steps.append({"op": "call", "i": 1, "api": e, "v": h["v"]})
+            steps.append({"op": "call", "i": i, "api": e, "v": h["v"]})
         elif e == "B":
             c = h["c"]
             occ[c] = occ.get(c, 0) + 1
-            cur_occ[c] = occ[c]
+            cur_occ[(i, c)] = occ[c]
             script_occ.setdefault(f"{c}:{occ[c]}", {"sends": [], "raise": False})
         elif e == "ncall":
-            script_occ[f"{h['c']}:{cur_occ[h['c']]}"]["sends"].append(h["ev"])
+            script_occ[f"{h['c']}:{cur_occ[(i, h['c'])]}"]["sends"].append(h["ev"])
+        elif e == "xcall":
+            script_occ[f"{h['c']}:{cur_occ[(i, h['c'])]}"]["sends"].append({"to": h["to"], "ev": h["ev"]})
         elif e == "E" and h["raised"]:
-            script_occ[f"{h['c']}:{cur_occ[h['c']]}"]["raise"] = True
+            script_occ[f"{h['c']}:{cur_occ[(i, h['c'])]}"]["raise"] = True
     return {"classes": member["classes"], "steps": steps, "script_occ": script_occ,
             "budget": (opt or {}).get("budget", 0), "ni": 3, "driver": member.get("driver", "sync"),
             "origin": "tlc-hist"}
@@ -161,6 +166,8 @@ def hist_scenarios(chk, family, constants, module="MC_System.tla", timeout=1500,
         with open(fam, "w") as f:
             json.dump(spec_family(family), f)
         cfg = os.path.join(wd, "hist.cfg")
+        constants = dict(constants)
+        constants.setdefault("MaxX", 0)
         write_cfg(cfg, constants, ["PrintHist"], [])
         extra = []
         if simulate:
